@@ -11,8 +11,8 @@ CHECKS = {
          "Held on the epochs produced: population 3..150, 25-60 consecutive epochs per scenario (a quarter of them with a store / restore in the middle), 8 fitness shapes including finite values whose sum overflows."),
  "C03": ("exploration", "runtime monitor: history-long innovation / node-id registry (control nodes of modules included) + per-generation event log of stored innovations (hook) checked online; store / restore in the middle of a run; modular start genomes (asexual reproduction)",
          "Held on the populations evolved; the sequential-only clauses are not asserted for parallel epochs; a restored population starts a new history."),
- "C04": ("exploration", "runtime monitor: reference alignment oracle over before/after snapshots of parents and child for the three crossovers",
-         "Held on the sampled parent pairs with common ancestry (family members grown by operator histories)."),
+ "C04": ("exploration", "runtime monitor: reference alignment oracle over before/after snapshots of parents and child for the three crossovers, called directly and observed at the Mated hook inside real epochs (fitter parent by the fitness the evaluator assigned; matings across species)",
+         "Held on the sampled parent pairs with common ancestry (family members grown by operator histories; organisms of spawned populations in real epochs)."),
  "C05": ("exploration", "runtime monitor: per-mutator before/after relation oracle over snapshots, with empty / matching / non-matching innovation records, mutators applied in place in chains on one genome object",
          "Held on the sampled genomes and records; a false result of add-node / add-link is outside the statement and only counted."),
  "C06": ("exploration", "runtime monitor: snapshot equality, object-address disjointness (exported fields and the node look-up view), sibling copies and mutation-independence oracle for duplicate and spawn; modular genomes with shared module IO",
